@@ -10,7 +10,7 @@
 (***************************************************************************)
 EXTENDS Integers, Sequences, FiniteSets, TLC, Json, IOUtils
 
-VARIABLES tid, l, st, now
+VARIABLES tid, l, st, now, conn
 Data == JsonDeserialize(IOEnv.TRACE_FILE)
 Traces == Data.traces
 Total == Data.total
@@ -30,6 +30,14 @@ Alive(s, t) == s.issued /\ ~s.unsub /\ ~s.ended /\ (t - s.started) < s.dur /\ s.
 GrantOK(req, granted) == granted > 0 /\ granted <= MaxDur /\ (req > 0 => granted <= req)
 SentOf(rec, kind) == {x \in Rng(rec.sent) : x.kind = kind}
 Once(rec) == \A i, j \in DOMAIN rec.sent : (i # j) => (rec.sent[i].id # rec.sent[j].id \/ rec.sent[i].kind # rec.sent[j].kind)
+
+\* ---- recorded with the real SoapClient of the provider (rec.real): a socket-level failure while a notification is
+\* exchanged (rec.broke: the subscriber endpoints it was scripted for) leaves the pooled connection to that endpoint
+\* closed; until the provider holds no subscription of that endpoint any more (housekeeping) further notifications to
+\* it may fail locally instead of being transmitted.  Everyone else is judged by what really was on the wire.
+Clients == {"A", "B"}
+Broken(rec, s) == rec.real /\ s.issued /\ s.owner \in Clients /\ (conn[s.owner] \/ s.owner \in Rng(rec.broke))
+Refused(rec, s) == rec.real /\ s.owner \in Rng(rec.refused_at_connect)
 
 Common(rec) == /\ Clause("table_lookups_agree", rec.agree)
 
@@ -63,13 +71,16 @@ Step(rec) ==
                   ELSE st
     [] rec.act = "Report" ->
          LET expect == {i \in Ids : Alive(st[i], rec.now) /\ rec.a \in st[i].filter}
-             got == {x.id : x \in SentOf(rec, rec.a)} IN
-         /\ Clause("delivered_to_every_live_matching_subscription", expect \subseteq got)
+             got == {x.id : x \in SentOf(rec, rec.a)}
+             \* attempted: on the wire, or refused when the provider tried to open the connection
+             attempted == got \cup {i \in expect : Refused(rec, st[i])} IN
+         /\ Clause("delivered_to_every_live_matching_subscription", \A i \in expect : i \in attempted \/ Broken(rec, st[i]))
          /\ Clause("delivered_only_to_live_matching_subscriptions", got \subseteq expect)
          /\ Clause("delivered_once", Once(rec))
          /\ Clause("only_this_report", \A x \in Rng(rec.sent) : x.kind = rec.a /\ x.addr = "notify")
-         /\ st' = [i \in Ids |-> IF i \in got
+         /\ st' = [i \in Ids |-> IF i \in attempted
                                  THEN [st[i] EXCEPT !.errors = IF st[i].owner \in Rng(rec.fail) THEN @ + 1 ELSE 0]
+                                 ELSE IF i \in expect THEN [st[i] EXCEPT !.errors = @ + 1]    \* failed locally
                                  ELSE st[i]]
     [] rec.act = "ReportDuring" ->
          \* rec.sent is in wire order; the event (Unsubscribe of rec.j / Tick) happened while the first notification was
@@ -81,14 +92,17 @@ Step(rec) ==
                    \A k \in DOMAIN rec.sent :
                       IF k = 1 THEN Match(st, rec.sent[k].id, now) ELSE Match(st1, rec.sent[k].id, rec.now))
          /\ Clause("delivered_to_every_live_matching_subscription",
-                   \A i \in Ids : (Match(st, i, now) /\ Match(st1, i, rec.now)) => i \in got)
+                   \A i \in Ids : (Match(st, i, now) /\ Match(st1, i, rec.now)) => (i \in got \/ Broken(rec, st[i])))
          /\ Clause("delivered_once", Once(rec))
          /\ Clause("only_this_report", \A x \in Rng(rec.sent) : x.kind = rec.a /\ x.addr = "notify")
-         /\ st' = [i \in Ids |-> IF i \in got THEN [st1[i] EXCEPT !.errors = 0] ELSE st1[i]]
+         /\ st' = [i \in Ids |-> IF i \in got THEN [st1[i] EXCEPT !.errors = 0]
+                                 ELSE IF Match(st, i, now) /\ Broken(rec, st[i]) THEN [st1[i] EXCEPT !.errors = @ + 1]
+                                 ELSE st1[i]]
     [] rec.act = "Stop" ->
          LET live == {i \in Ids : Alive(st[i], rec.now)}
              ends == {x.id : x \in SentOf(rec, "End")} IN
-         /\ Clause("end_to_every_live_subscription", rec.sendEnd => live \subseteq ends)
+         /\ Clause("end_to_every_live_subscription",
+                   rec.sendEnd => \A i \in live : i \in ends \/ (~st[i].endTo /\ Broken(rec, st[i])))
          /\ Clause("no_end_when_switched_off", ~rec.sendEnd => rec.sent = <<>>)
          /\ Clause("end_exactly_once", Once(rec))
          /\ Clause("end_addressed_to_endto_else_notifyto",
@@ -103,11 +117,18 @@ Step(rec) ==
          /\ Clause("no_notification_without_report", rec.sent = <<>>)
          /\ st' = st
 
-TraceInit == tid \in 1..Len(Traces) /\ l = 1 /\ st = [i \in Ids |-> NoSub] /\ now = 0
+\* the connection to an endpoint is fresh again once the provider holds no subscription of that endpoint any more
+ConnNext(rec) ==
+  conn' = [c \in Clients |->
+             IF rec.act = "Housekeeping"
+             THEN conn[c] /\ (\E i \in Ids : st[i].issued /\ st[i].owner = c /\ i \in Rng(rec.table))
+             ELSE conn[c] \/ (rec.real /\ c \in Rng(rec.broke))]
+
+TraceInit == tid \in 1..Len(Traces) /\ l = 1 /\ st = [i \in Ids |-> NoSub] /\ now = 0 /\ conn = [c \in Clients |-> FALSE]
 TraceNext == /\ l < Len(Traces[tid])
-             /\ LET rec == Traces[tid][l + 1] IN Step(rec) /\ Common(rec) /\ now' = rec.now
+             /\ LET rec == Traces[tid][l + 1] IN Step(rec) /\ Common(rec) /\ ConnNext(rec) /\ now' = rec.now
              /\ l' = l + 1 /\ tid' = tid
-TraceSpec == TraceInit /\ [][TraceNext]_<<tid, l, st, now>>
+TraceSpec == TraceInit /\ [][TraceNext]_<<tid, l, st, now, conn>>
 View == <<tid, l>>
 AllConsumed == TLCGet("distinct") = Total
 =============================================================================
